@@ -191,6 +191,9 @@ def build_reference(root: Path) -> dict:
             sg = signatures(fn)
             if sg:
                 ref.setdefault(rel, {})[q] = sg
+            cs = call_shapes(fn)
+            if cs:
+                ref.setdefault('__calls__', {}).setdefault(rel, {})[q] = cs
             cmps, tests = shapes(fn)
             if cmps or tests:
                 ref.setdefault('__shapes__', {}).setdefault(rel, {})[q] = {'cmp': sorted(cmps), 'if': sorted(tests)}
@@ -328,3 +331,82 @@ def normalise(tree: ast.Module, rel: str, digest: str | None = None) -> tuple[as
         renamed += r.n
     ast.fix_missing_locations(tree)
     return tree, renamed
+
+
+def call_shapes(fn) -> dict[str, list]:
+    """callee text -> distinct [n positional, sorted keyword names] shapes used in fn"""
+    out: dict[str, list] = {}
+    for n in ast.walk(fn):
+        if isinstance(n, ast.Call) and not any(isinstance(a, ast.Starred) for a in n.args) \
+                and not any(k.arg is None for k in n.keywords):
+            sh = [len(n.args), sorted(k.arg for k in n.keywords)]
+            lst = out.setdefault(_txt(n.func), [])
+            if sh not in lst:
+                lst.append(sh)
+    return out
+
+
+def reshape_calls(prog) -> int:
+    """Positional <-> keyword respelling of calls to repository functions is
+    behaviour-preserving.  For files that differ from the reference, a call whose
+    (positional count, keyword names) shape is not the one the reference function
+    uses for that callee is rewritten into the reference shape, using the
+    callee's own parameter list (only `self.`/`cls.` methods and functions of
+    the same module are touched, where resolution is certain)."""
+    from .resolve import resolve_call
+    ref = _load_ref()
+    calls = ref.get('__calls__', {})
+    digests = ref.get('__digest__', {})
+    done = 0
+    for rel, m in prog.modules.items():
+        if rel not in calls or digests.get(rel) == m.digest:
+            continue
+        for q, fi in m.functions.items():
+            want = calls[rel].get(q.split('@')[0])
+            if not want:
+                continue
+            for c in [x for x in ast.walk(fi.node) if isinstance(x, ast.Call)]:
+                shapes_ = want.get(_txt(c.func))
+                if not shapes_ or len(shapes_) != 1:
+                    continue
+                if any(isinstance(a, ast.Starred) for a in c.args) or any(k.arg is None for k in c.keywords):
+                    continue
+                cur = [len(c.args), sorted(k.arg for k in c.keywords)]
+                if cur == shapes_[0]:
+                    continue
+                f = c.func
+                certain = (isinstance(f, ast.Attribute) and isinstance(f.value, ast.Name) and f.value.id in ('self', 'cls')) \
+                    or (isinstance(f, ast.Name))
+                if not certain:
+                    continue
+                callee = resolve_call(prog, fi, c)
+                if callee is None or (isinstance(f, ast.Name) and callee.module is not m):
+                    continue
+                a = callee.node.args
+                if a.vararg or a.posonlyargs:
+                    continue
+                ps = [x.arg for x in a.args]
+                if ps[:1] in (['self'], ['cls']) and isinstance(f, ast.Attribute):
+                    ps = ps[1:]
+                kwonly = [x.arg for x in a.kwonlyargs]
+                val = {}
+                ok = len(c.args) <= len(ps)
+                for i, v in enumerate(c.args[:len(ps)]):
+                    val[ps[i]] = v
+                for k in c.keywords:
+                    if k.arg in val or k.arg not in ps + kwonly:
+                        ok = False
+                    val[k.arg] = k.value
+                npos, kws = shapes_[0]
+                if not ok or npos > len(ps) or any(p not in val for p in ps[:npos]) \
+                        or set(val) != set(ps[:npos]) | set(kws):
+                    continue
+                c.args = [val[p] for p in ps[:npos]]
+                c.keywords = [ast.keyword(arg=k, value=val[k]) for k in kws]
+                for k in c.keywords:
+                    k._parent = c
+                    k.value._parent = k
+                for v in c.args:
+                    v._parent = c
+                done += 1
+    return done
